@@ -143,13 +143,14 @@ type Stats struct {
 	PerBound   []int64 // executions first reached at each preemption bound
 	BoundDone  int
 	Truncated  bool
+	TimedOut   bool
 }
 
 // Explore runs every schedule with at most `bound` preemptions (iterating the
 // bound 0,1,..), calling check for every complete execution. check returns
 // false to stop (a violation was found). mk builds fresh bodies (and a fresh
 // fixture) for every execution.
-func Explore(mk func() []func() any, bound int, maxExec int64, stepTimeout time.Duration, check func(x *Exec) bool) (Stats, error) {
+func Explore(mk func() []func() any, bound int, maxExec int64, stepTimeout time.Duration, deadline time.Time, check func(x *Exec) bool) (Stats, error) {
 	var st Stats
 	stop := false
 	var rec func(prefix []int, b int) error
@@ -159,6 +160,12 @@ func Explore(mk func() []func() any, bound int, maxExec int64, stepTimeout time.
 		}
 		if maxExec > 0 && st.Executions >= maxExec {
 			st.Truncated = true
+			stop = true
+			return nil
+		}
+		if !deadline.IsZero() && st.Executions%64 == 0 && time.Now().After(deadline) {
+			st.Truncated = true
+			st.TimedOut = true
 			stop = true
 			return nil
 		}
